@@ -148,13 +148,17 @@ networks:
     attachable: true
     enable_ipv6: false
     labels: {foo: bar}
+  extnet-unnamed: {external: true}
 volumes:
   vol: {driver: local, driver_opts: {foo: bar}, labels: {foo: bar}, name: custom-vol}
   extvol: {external: true, name: outside-vol}
+  extvol-unnamed: {external: true}
 secrets:
   sec: {file: ./secret_data, labels: {foo: bar}}
+  extsec-unnamed: {external: true}
 configs:
   cfg: {file: ./config_data, labels: {foo: bar}}
+  extcfg-unnamed: {external: true}
 x-top: {anything: goes}
 `
 
